@@ -364,7 +364,9 @@ def generate(ctx):
     names = [G.name for G in gs]
     nb = 200 if ctx.tier == "quick" else 2000
     fam = [("432", "622"), ("23", "32"), ("m-3m", "6/mmm"), ("432", "32"), ("m-3m", "6mm"), ("422", "32"), ("-43m", "-6m2"),
-           ("222", "3"), ("m-3", "-3m"), ("432", "6")]
+           ("222", "3"), ("m-3", "-3m"), ("432", "6"),
+           # one group improper, the other proper, different proper parts (both orders are computed by the site)
+           ("m-3m", "622"), ("m-3m", "32"), ("-43m", "6"), ("4/mmm", "3"), ("6/mmm", "23"), ("mmm", "4")]
     plist = [(names.index(a), names.index(b), nb) for a, b in fam if a in names and b in names]
     plist += [(k, k, 12) for k in range(nG)]
     plist += [(int(rng.integers(nG)), int(rng.integers(nG)), 40) for _ in range(10 if ctx.tier == "quick" else 100)]
